@@ -51,6 +51,8 @@ pub struct ECase {
     pub enum_ghosts: Vec<(usize, i64)>,
     pub uncovered: bool, // T-only variant W not mentioned anywhere: From evaluates the default case
     pub owned_only: bool,
+    /// enum-level ghosts written as a default DECOY instruction followed by the real ones dedicated to each counterpart
+    pub decoy: bool,
     pub tags: Vec<String>,
 }
 
@@ -149,9 +151,13 @@ pub fn gen(ctx: &mut Ctx, o: &EOpts) -> Option<ECase> {
             tags.push(if p.iter().enumerate().all(|(i, x)| i == *x) { "perm:identity".into() } else { "perm:crossed".into() });
         }
     }
+    let decoy = ng > 0 && ctx.flag();
+    if decoy {
+        tags.push("ghosts-decoy".into());
+    }
     tags.sort();
     tags.dedup();
-    Some(ECase { variants, enum_ghosts, uncovered, owned_only, tags })
+    Some(ECase { variants, enum_ghosts, uncovered, owned_only, decoy, tags })
 }
 
 impl VSpec {
@@ -286,7 +292,28 @@ impl ECase {
                     _ => format!("Y2 {{ .. }}: {{ {}::Z({}) }}", name, m),
                 })
                 .collect();
-            it.attrs.push(Instr::new("ghosts", None, &entries.join(", ")));
+            if self.decoy {
+                let decoys: Vec<String> = self
+                    .enum_ghosts
+                    .iter()
+                    .map(|(form, m)| match form {
+                        0 => format!("Y0: {{ {}::Z({}) }}", name, 9900 + m),
+                        1 => format!("Y1(..): {{ {}::Z({}) }}", name, 9900 + m),
+                        _ => format!("Y2 {{ .. }}: {{ {}::Z({}) }}", name, 9900 + m),
+                    })
+                    .collect();
+                it.attrs.push(Instr::new("ghosts", None, &decoys.join(", ")));
+                let cps: Vec<&str> = match fallible {
+                    Some(false) => vec!["T"],
+                    Some(true) => vec!["Tf"],
+                    None => vec!["T", "Tf"],
+                };
+                for cp in cps {
+                    it.attrs.push(Instr::new("ghosts", Some(cp), &entries.join(", ")));
+                }
+            } else {
+                it.attrs.push(Instr::new("ghosts", None, &entries.join(", ")));
+            }
         }
         // `DST` in variant-level actions stands for the counterpart of the impl being generated: with two counterparts
         // (T and the twin Tf) the actions are written once per counterpart as dedicated instructions
